@@ -129,6 +129,7 @@ class Body:
         self.prog = prog
         self.raw = raw
         self.path = prog.fix_path(raw["path"])
+        self._orig_path = self.path  # the path in this tree (self.path is moved to the reviewed path when a rename is detected)
         self.kind = raw.get("kind")
         self.strings = raw.get("strings", [])
         sp = raw.get("span", [0, 0])
@@ -311,8 +312,9 @@ class Body:
                     proj.append(x)
             return "_%d%s" % (p.local, "".join(proj))
 
-        own = re.sub(r"(::\{closure#\d+\})+$", "", self.path).split("::")[-1]
-        own_re = re.compile(r"\b%s\b" % re.escape(own)) if re.match(r"^\w+$", own) else None
+        owns = {re.sub(r"(::\{closure#\d+\})+$", "", p_).split("::")[-1] for p_ in (self.path, getattr(self, "_orig_path", self.path))}
+        owns = sorted(o for o in owns if re.match(r"^\w+$", o))
+        own_re = re.compile(r"\b(%s)\b" % "|".join(re.escape(o) for o in owns)) if owns else None
 
         def ty(t):
             if not isinstance(t, str):
@@ -1164,6 +1166,10 @@ class Program:
                             if bq.parent and (bq.parent == p or bq.parent.startswith(p + "::{closure#")):
                                 bq.parent = old + bq.parent[len(p):]
                             self.bodies[nq] = bq
+                            # its locals / parameters may have been renamed along with it
+                            ents_ = kn.get(nq)
+                            if ents_ and bq.raw is not None and not any([nm for nm, _ in bq.raw.get("dbg", [])] == e_["dbg"] for e_ in ents_):
+                                bq._reviewed_names = ents_
                         else:
                             cp = Body(self, bq.raw)
                             cp.path = nq
